@@ -5,6 +5,22 @@ open Lean Jinns.Proto
 
 namespace Jinns.Driver
 
+/-- non-finite floats cross the protocol as the strings "nan", "inf", "-inf": the innermost object key
+    under which the first one occurs, if any (scanned before any exact-rational parsing) -/
+private partial def nonFiniteKey (j : Json) (key : String) : Option String :=
+  match j with
+  | .str s => if s == "nan" || s == "inf" || s == "-inf" then some key else none
+  | .arr a => a.toList.findSome? (nonFiniteKey · key)
+  | .obj kvs => kvs.toList.findSome? fun kv => nonFiniteKey kv.2 kv.1
+  | _ => none
+
+private def nonFiniteAnswer14 (j : Json) : Option Json :=
+  (nonFiniteKey j "").map fun key =>
+    let what := match key with
+      | "tx" => "interior" | "tdx" => "border" | "out" => "product" | k => k
+    Json.mkObj [("nonfinite", Json.bool true), ("agree", Json.bool true), ("factors_agree", Json.bool true),
+      ("holds", Json.bool false), ("clause", jOptStr (Jinns.Holds.c14NotFinite what)), ("step", Json.null)]
+
 private def ratCube (j : Json) : Except String (List (List (List Rat))) := do
   let a ← j.getArr?
   a.toList.mapM ratMat
@@ -19,6 +35,7 @@ private def optCube (j : Json) (k : String) : Except String (Option (List (List 
 
 /-- request `c14_prod`: {rank: 2|3, b1, b2, out}: one call of `make_cartesian_product`. -/
 def handleC14Prod (j : Json) : Except String Json := do
+  if let some ans := nonFiniteAnswer14 j then return ans
   let rank ← getNat j "rank"
   if rank == 2 then do
     let b1 ← getRatMat j "b1"
@@ -43,6 +60,7 @@ def handleC14Prod (j : Json) : Except String Json := do
     The model slices the stores at the cursors (C09's `slice`), combines, and `Holds.C14` is
     evaluated on the observed factors and batch. -/
 def handleC14Batch (j : Json) : Except String Json := do
+  if let some ans := nonFiniteAnswer14 j then return ans
   let cart ← getBool j "cart"
   let dim ← getNat j "dim"
   let steps ← getArr j "steps"
